@@ -4,6 +4,9 @@ CLAIMED = {
             "4/C01", ""),
     "C03": ("SMT (z3 real arithmetic) over symbolic execution of the real Aggregate.build / coupling / "
             "transition_dipole / dipole_dipole_interaction code with symbolic molecular parameters", "4/C03", ""),
+    "C05": ("SMT (z3 real arithmetic) over symbolic execution of the unit-conversion functions and every "
+            "units-managed accessor for all ordered unit pairs; bounded programs of nested contexts / library "
+            "calls executed on the real Manager", "4/C05", ""),
     "C13": ("SMT (z3 nonlinear real arithmetic with exact algebraic roots of unity) over symbolic execution of the "
             "real axis-conjugation and DFunction Fourier-transform code", "4/C13", ""),
     "C14": ("SMT (z3; IEEE exp under/overflow as axioms on an uninterpreted Exp; division-by-zero side "
@@ -23,5 +26,5 @@ CLAIMED = {
 }
 _NYB = "check not built yet in this round (design in DESIGN.md section 4); not claimed until its harness is sound"
 NOT_APPLICABLE = {p: _NYB for p in
-                  ["C%02d" % i for i in range(2, 20) if i not in (3, 13, 14, 16, 17, 19)]}
+                  ["C%02d" % i for i in range(2, 20) if i not in (3, 5, 13, 14, 16, 17, 19)]}
 SOURCE_COMMITS = []
